@@ -1409,6 +1409,14 @@ func (e *govEnv) hostileFund() []Tx {
 			return nil
 		}
 		f := e.anyPayer()
+		if e.c.Rng.Intn(2) == 0 {
+			// the late contribution would complete the goal
+			if v := e.view(p.ID); v != nil && v.P != nil {
+				if rem := new(big.Int).Sub(v.P.FundingGoal.BigInt(), v.Funds); rem.Sign() > 0 {
+					return []Tx{e.txFund("PROPOSAL_FUND/after-deadline-goal", p.ID, f.Addr, "OLT", rem, f)}
+				}
+			}
+		}
 		return []Tx{e.txFund("PROPOSAL_FUND/after-deadline", p.ID, f.Addr, "OLT", big.NewInt(1000000), f)}
 	case 7:
 		f := e.anyPayer()
